@@ -499,7 +499,7 @@ def limit_scripts(tier, seed):
         lines = ["# g%d" % j, "cleartable", "new " + f]
         for k in range(max(10, min(guard, 1100) - 2)):
             lines.append("hist " + cyc[k % 4])
-        lines += ["obs", "search 0 %d 0" % (polls // 2)]
+        lines += ["obs", "search 0 %d 0" % max(150000, polls // 2)]      # (deep enough for game length + search depth to pass 512)
         blocks.append(lines)
     for j, f in enumerate(deep):
         blocks.append(["# u%d" % j, "cleartable", "new " + f, "obs", "search 0 %d 0" % polls])
